@@ -2,7 +2,7 @@ from pyvc.cbase import Registry
 
 
 def build_registry():
-    from . import externs, expect, spawnbase, screen, ansi, utils
+    from . import externs, expect, spawnbase, screen, ansi, utils, transports
     reg = Registry()
     externs.register(reg)
     spawnbase.register(reg)
@@ -10,4 +10,5 @@ def build_registry():
     screen.register(reg)
     ansi.register(reg)
     utils.register(reg)
+    transports.register(reg)
     return reg
